@@ -330,7 +330,6 @@ func (p *Proxy) handleCONNECT(r responder.Responder, proxyReq *http.Request) err
 	// Create a buffered reader for the client connection. This is required to
 	// use http package functions with this connection.
 	connReader := bufio.NewReader(tlsConn)
-	responder := responder.NewRawHTTPResponder(tlsConn)
 
 	slog.Debug("Entering request loop for CONNECT tunnel", "host", proxyReq.Host)
 	for {
@@ -346,7 +345,9 @@ func (p *Proxy) handleCONNECT(r responder.Responder, proxyReq *http.Request) err
 		}
 
 		req.Close = true
-		if err := p.handleHTTP(responder, req); err != nil {
+		// Each exchange gets its own responder: a responder accumulates the headers, status and
+		// Content-Length of the response it builds, which must not carry over to the next exchange.
+		if err := p.handleHTTP(responder.NewRawHTTPResponder(tlsConn), req); err != nil {
 			slog.Error("Error processing HTTP request in CONNECT tunnel", "host", proxyReq.Host, "error", err)
 		}
 	}
